@@ -165,3 +165,232 @@ def body_size(spec):
         elif isinstance(v, float):
             vals.append(float(v))
     return max(vals) if vals else 1.0
+
+
+# ----------------------------------------------------------------- single tetrahedron pairs (C15)
+def _vol6(t):
+    a, b, c, d = t
+    u = [b[i] - a[i] for i in range(3)]
+    v = [c[i] - a[i] for i in range(3)]
+    w = [d[i] - a[i] for i in range(3)]
+    return (u[0] * (v[1] * w[2] - v[2] * w[1]) - u[1] * (v[0] * w[2] - v[2] * w[0])
+            + u[2] * (v[0] * w[1] - v[1] * w[0]))
+
+
+def _diam(t):
+    return max(math.dist(p, q) for p in t for q in t)
+
+
+def rand_tet(rng, scale=1.0, center=(0.0, 0.0, 0.0)):
+    """a random, not too flat tetrahedron (either orientation)"""
+    while True:
+        t = [[center[i] + scale * rng.uniform(-1, 1) for i in range(3)] for _ in range(4)]
+        if abs(_vol6(t)) > 0.05 * _diam(t) ** 3:
+            return t
+
+
+def rand_pot(rng, scale=1.0):
+    """non-negative vertex potentials, not all zero; factory-like patterns (zeros on the
+    surface vertices, one or two positive) are frequent"""
+    k = rng.random()
+    if k < 0.35:
+        e = [0.0] * 4
+        e[rng.randrange(4)] = scale * rng.uniform(0.2, 1.0)
+    elif k < 0.55:
+        e = [0.0] * 4
+        for i in rng.sample(range(4), 2):
+            e[i] = scale * rng.uniform(0.2, 1.0)
+    elif k < 0.65:
+        e = [scale * 0.5] * 4
+    else:
+        e = [scale * rng.uniform(0.0, 1.0) for _ in range(4)]
+    if max(e) <= 0.0:
+        e[0] = scale
+    return e
+
+
+def _moduli(rng):
+    k = rng.random()
+    if k < 0.4:
+        return 1.0, 1.0
+    if k < 0.5:
+        E = logu(rng, 1e-2, 1e2)
+        return E, E
+    return logu(rng, 1e-2, 1e2), logu(rng, 1e-2, 1e2)
+
+
+CUBE_CORNERS = [[x, y, z] for x in (0.0, 1.0) for y in (0.0, 1.0) for z in (0.0, 1.0)]
+# the 12 tetrahedra of a cube split through its centre: one face diagonal per face
+CUBE_FACES = [(0, 1, 3, 2), (4, 6, 7, 5), (0, 4, 5, 1), (2, 3, 7, 6), (0, 2, 6, 4), (1, 5, 7, 3)]
+
+
+def cube_tets(a, origin):
+    """12 axis-aligned tetrahedra (corner, corner, corner, centre) of the cube
+    origin + [0,a]^3 with potentials 0 on the corners and a/2 at the centre"""
+    c = [origin[i] + a / 2 for i in range(3)]
+    P = [[origin[i] + a * q[i] for i in range(3)] for q in CUBE_CORNERS]
+    out = []
+    for f in CUBE_FACES:
+        for tri in ((f[0], f[1], f[2]), (f[0], f[2], f[3])):
+            out.append(([P[tri[0]], P[tri[1]], P[tri[2]], c], [0.0, 0.0, 0.0, a / 2]))
+    return out
+
+
+PAIR_CLASSES = ["random", "random_near", "aligned", "lattice", "shared_face", "identical", "same_field",
+                "touching", "disjoint", "tiny_scale", "big_offset"]
+
+
+def tet_pair(rng, cls):
+    """one single-pair case of class cls (see PAIR_CLASSES)"""
+    E1, E2 = _moduli(rng)
+    c = dict(kind="pair", cls=cls)
+    if cls in ("random", "tiny_scale", "big_offset"):
+        s = 1.0 if cls != "tiny_scale" else logu(rng, 1e-3, 1e-1)
+        ctr = (0.0, 0.0, 0.0) if cls != "big_offset" else tuple(rng.uniform(-1, 1) * 50 for _ in range(3))
+        t1 = rand_tet(rng, s, ctr)
+        t2 = rand_tet(rng, s * rng.uniform(0.5, 1.5), tuple(ctr[i] + s * rng.uniform(-0.6, 0.6) for i in range(3)))
+        e1, e2 = rand_pot(rng, s), rand_pot(rng, s)
+    elif cls == "random_near":
+        t1 = rand_tet(rng)
+        t2 = [[x + 0.4 * rng.gauss(0, 1) for x in p] for p in t1]
+        if abs(_vol6(t2)) < 1e-3:
+            t2 = rand_tet(rng)
+        e1, e2 = rand_pot(rng), rand_pot(rng)
+    elif cls == "aligned":
+        # two axis-aligned cubes split into 12 tetrahedra each, stacked along z with a small
+        # penetration and a lattice offset: faces of the tetrahedra are parallel to the contact plane
+        a = rng.choice([0.25, 0.5, 1.0, 2.0])
+        b = a * rng.choice([1.0, 1.0, 0.5, 2.0])
+        pen = a * rng.choice([0.0625, 0.125, 0.25, 0.1, 0.03])
+        o1 = [rng.choice([0.0, -1.0, 0.5, 3.0]) for _ in range(3)]
+        o2 = [o1[0] + a * rng.choice([0.0, 0.0, 0.25, -0.125, 0.5]), o1[1] + a * rng.choice([0.0, 0.0, 0.25, -0.125, 0.5]),
+              o1[2] + a - pen]
+        A1, A2 = cube_tets(a, o1), cube_tets(b, o2)
+        # upper tetrahedra of cube 1 against lower tetrahedra of cube 2 (those are the ones in contact);
+        # other combinations are drawn as well (most of them do not intersect)
+        if rng.random() < 0.7:
+            (t1, e1), (t2, e2) = rng.choice([A1[2], A1[3]] + A1[4:]), rng.choice([A2[0], A2[1]] + A2[4:])
+        else:
+            (t1, e1), (t2, e2) = rng.choice(A1), rng.choice(A2)
+        if rng.random() < 0.5:
+            E1 = E2 = 1.0
+    elif cls == "lattice":
+        vals = [-1.0, -0.5, 0.0, 0.5, 1.0, 1.5, 2.0]
+        while True:
+            t1 = [[rng.choice(vals) for _ in range(3)] for _ in range(4)]
+            t2 = [[rng.choice(vals) for _ in range(3)] for _ in range(4)]
+            if abs(_vol6(t1)) >= 0.125 and abs(_vol6(t2)) >= 0.125:
+                break
+        e1 = [rng.choice([0.0, 0.0, 0.5, 1.0]) for _ in range(4)]
+        e2 = [rng.choice([0.0, 0.0, 0.5, 1.0]) for _ in range(4)]
+        if max(e1) == 0.0:
+            e1[3] = 0.5
+        if max(e2) == 0.0:
+            e2[3] = 0.5
+        E1, E2 = rng.choice([(1.0, 1.0), (1.0, 1.0), (2.0, 1.0), (0.5, 4.0)])
+    elif cls == "shared_face":
+        t1 = rand_tet(rng)
+        # reflect the 4th vertex through the face (0,1,2), or keep it on the same side
+        a, b, cc, d = t1
+        u = [b[i] - a[i] for i in range(3)]
+        v = [cc[i] - a[i] for i in range(3)]
+        n = [u[1] * v[2] - u[2] * v[1], u[2] * v[0] - u[0] * v[2], u[0] * v[1] - u[1] * v[0]]
+        nn = sum(x * x for x in n)
+        h = sum((d[i] - a[i]) * n[i] for i in range(3)) / nn
+        k = rng.choice([-1.0, -0.5, 0.5, 1.5])      # negative: other side (only the face is shared)
+        d2 = [d[i] + (k - 1.0) * h * n[i] + 0.2 * rng.uniform(-1, 1) * u[i] for i in range(3)]
+        t2 = [a, b, cc, d2]
+        perm = rng.sample(range(4), 4)
+        t2 = [t2[i] for i in perm]
+        e1, e2 = rand_pot(rng), rand_pot(rng)
+    elif cls == "identical":
+        t1 = rand_tet(rng) if rng.random() < 0.6 else rng.choice(cube_tets(1.0, [0.0, 0.0, rng.choice([0.0, 2.0])]))[0]
+        t2 = [list(p) for p in t1]
+        e1 = rand_pot(rng)
+        e2 = list(e1)
+        if rng.random() < 0.3:
+            e2 = rand_pot(rng)
+        if rng.random() < 0.6:
+            E1 = E2 = rng.choice([1.0, 0.5, 3.0])
+    elif cls == "same_field":
+        # two different tetrahedra carrying (up to rounding) the same linear pressure field
+        t1 = rand_tet(rng) if rng.random() < 0.5 else rng.choice(cube_tets(1.0, [0.0, 0.0, 0.0]))[0]
+        g = [rng.uniform(-1, 1) for _ in range(3)]
+        off = rng.uniform(1.5, 3.0) * 2
+        e1 = [sum(g[i] * p[i] for i in range(3)) + off for p in t1]
+        t2 = [[x + 0.3 * rng.uniform(-1, 1) for x in p] for p in t1]
+        if rng.random() < 0.5:
+            t2 = [[round(x * 4) / 4 for x in p] for p in t2]
+            t1 = [[round(x * 4) / 4 for x in p] for p in t1]
+            g = [round(x * 4) / 4 for x in g]
+            e1 = [sum(g[i] * p[i] for i in range(3)) + 8.0 for p in t1]
+            if abs(_vol6(t1)) < 0.05 or abs(_vol6(t2)) < 0.05:
+                return tet_pair(rng, cls)
+            e2 = [sum(g[i] * p[i] for i in range(3)) + 8.0 for p in t2]
+        else:
+            e2 = [sum(g[i] * p[i] for i in range(3)) + off for p in t2]
+        E1 = E2 = rng.choice([1.0, 2.0])
+    elif cls in ("touching", "disjoint"):
+        # tetrahedron 2 has a vertex pointing at a face of tetrahedron 1 along the face normal,
+        # penetrating by delta (touching: |delta| tiny, either sign) or separated by a gap
+        t1 = rand_tet(rng) if rng.random() < 0.6 else [[0.0, 0.0, 0.0], [1.0, 0.0, 0.0], [0.0, 1.0, 0.0], [0.25, 0.25, -1.0]]
+        a, b, cc, d = t1
+        u = [b[i] - a[i] for i in range(3)]
+        v = [cc[i] - a[i] for i in range(3)]
+        n = [u[1] * v[2] - u[2] * v[1], u[2] * v[0] - u[0] * v[2], u[0] * v[1] - u[1] * v[0]]
+        ln = math.sqrt(sum(x * x for x in n))
+        n = [x / ln for x in n]
+        if sum((d[i] - a[i]) * n[i] for i in range(3)) > 0:
+            n = [-x for x in n]                     # outward normal of face (a,b,c)
+        ctr = [(a[i] + b[i] + cc[i]) / 3 for i in range(3)]
+        if cls == "touching":
+            delta = rng.choice([1e-9, 1e-7, 9e-7, 1.1e-6, 2e-6, 1e-5, 1e-4, 0.0, -1e-9, -1e-6])
+        else:
+            delta = -rng.choice([1e-5, 1e-3, 0.1, 1.0])
+        apex = [ctr[i] - delta * n[i] for i in range(3)]    # delta > 0: inside tetrahedron 1
+        # base of tetrahedron 2 further out along n
+        h = rng.uniform(0.5, 1.5)
+        x_ax = [u[i] / math.sqrt(sum(q * q for q in u)) for i in range(3)]
+        y_ax = [n[1] * x_ax[2] - n[2] * x_ax[1], n[2] * x_ax[0] - n[0] * x_ax[2], n[0] * x_ax[1] - n[1] * x_ax[0]]
+        base = []
+        for k in range(3):
+            ang = 2 * math.pi * k / 3 + rng.uniform(-0.3, 0.3)
+            r = rng.uniform(0.3, 1.0)
+            base.append([apex[i] + h * n[i] + r * (math.cos(ang) * x_ax[i] + math.sin(ang) * y_ax[i]) for i in range(3)])
+        if rng.random() < 0.3 and cls == "touching":
+            # face against face instead of vertex against face
+            base2 = [[apex[i] + 0.3 * (math.cos(2 * math.pi * k / 3) * x_ax[i] + math.sin(2 * math.pi * k / 3) * y_ax[i])
+                      for i in range(3)] for k in range(3)]
+            t2 = base2 + [[apex[i] + h * n[i] for i in range(3)]]
+        else:
+            t2 = [apex] + base
+        e1, e2 = rand_pot(rng), rand_pot(rng)
+        if rng.random() < 0.5:
+            # factory-like: potential zero on the touching face / vertex
+            e1 = [0.0, 0.0, 0.0, rng.uniform(0.2, 1.0)]
+        if cls == "disjoint":
+            c["expect_disjoint"] = dict(n=n)
+    else:
+        raise ValueError(cls)
+    if max(e1) - min(e1) <= 0.0 and max(e2) - min(e2) <= 0.0:
+        # two constant potentials: neither pressure field has a gradient, there is no equal-pressure plane
+        e1 = list(e1)
+        e1[rng.randrange(4)] = 0.0
+    c.update(t1=[[float(x) for x in p] for p in t1], e1=[float(x) for x in e1],
+             t2=[[float(x) for x in p] for p in t2], e2=[float(x) for x in e2], E1=float(E1), E2=float(E2))
+    return c
+
+
+def parse_coq_value(s):
+    """Coq list/tuple syntax of floats / numbers -> nested Python lists"""
+    import json
+    import re
+    s = s.replace("%Z", "").replace("%float", "").replace("%nat", "")
+    s = re.sub(r"\((-[0-9][0-9.e+-]*)\)", r"\1", s)
+    s = s.replace("(", "[").replace(")", "]").replace(";", ",")
+    s = re.sub(r"\bneg_infinity\b", "-1e999", s)
+    s = re.sub(r"\binfinity\b", "1e999", s)
+    s = re.sub(r"\bnan\b", "NaN", s)
+    s = re.sub(r"\btrue\b", "1", s)
+    s = re.sub(r"\bfalse\b", "0", s)
+    return json.loads(s)
